@@ -213,8 +213,7 @@ class NamespaceClass(Namespace[symtable.Class]):
     # keys   --> nonlocal names of THIS namespace
     # values --> where the nonlocal name was born
 
-    if sys.version_info < (3, 12):
-        globals_used_in_comp: set[str]  # global names used in comprehensions
+    globals_used_in_comp: set[str]  # global names used in comprehensions/lambdas
 
     def __init__(self, symt: symtable.Class, stack: list[Namespace]):
         # don't push/pop the stack in this function
@@ -224,8 +223,7 @@ class NamespaceClass(Namespace[symtable.Class]):
         self.outer_nsp = stack[-1]
         self.outer_nsp.inner_nsp.append(self)
         self.outer_nonlocal_map = {}
-        if sys.version_info < (3, 12):
-            self.globals_used_in_comp = set()
+        self.globals_used_in_comp = set()
 
         for symbol in self.symt.get_symbols():
             if not (symbol.is_nonlocal() or symbol.is_free()):
@@ -294,7 +292,7 @@ class NamespaceClass(Namespace[symtable.Class]):
             if name in comp.target_names:
                 return Name(id=name, ctx=Load())
 
-        if sys.version_info < (3, 12) and name in self.globals_used_in_comp:
+        if name in self.globals_used_in_comp:
             return Name(id=name, ctx=Load())
 
         symbol = self.symt.lookup(name)
